@@ -33,6 +33,9 @@ class Moment:
     def load_data(self, X, y: pd.Series, *, sensitive_features: pd.Series | None = None) -> None:
         """Load a set of data for use by this object.
 
+        Calling this method again replaces the previously loaded data, so that
+        an estimator holding this moment can be fitted more than once.
+
         Parameters
         ----------
         X : array
@@ -42,7 +45,6 @@ class Moment:
         sensitive_features : :class:`pandas.Series`
             The sensitive feature vector (default None)
         """
-        assert self.data_loaded is False, "data can be loaded only once"
         if sensitive_features is not None:
             assert isinstance(sensitive_features, pd.Series)
         self.X = X
